@@ -48,11 +48,13 @@ fn wrap(mt: &str, b4: &str, variant: &str) -> String {
         "output-header" => format!("{{1:F01BANKBEBBAXXX0000000000}}{{2:O{mt}1200240101BANKDEFFAXXX00000000002401011201N}}{{4:\n{b4}-}}"),
         "output-header-no-priority" => format!("{{1:F01BANKBEBBAXXX0000000000}}{{2:O{mt}1200240101BANKDEFFAXXX00000000002401011201}}{{4:\n{b4}-}}"),
         "block5-empty-values" => format!("{{1:F01BANKBEBBAXXX0000000000}}{{2:I{mt}BANKDEFFXXXXN}}{{4:\n{b4}-}}{{5:{{CHK:123456789ABC}}{{PDE:}}{{PDM:1213}}{{SYS:}}}}"),
-        "bic11" => format!("{{1:F01BANKBEBB1230000000000}}{{2:I{mt}BANKDEFFX123N2020}}{{4:\n{b4}-}}"),
+        "block5-empty" => format!("{{1:F01BANKBEBBAXXX0000000000}}{{2:I{mt}BANKDEFFXXXXN}}{{4:\n{b4}-}}{{5:}}"),
+        "block5-unknown-tag" => format!("{{1:F01BANKBEBBAXXX0000000000}}{{2:I{mt}BANKDEFFXXXXN}}{{4:\n{b4}-}}{{5:{{TNG:}}{{XYZ:ABC}}}}"),
+        "bic11" => format!("{{1:F01BANKBEBBA1230000000000}}{{2:I{mt}BANKDEFFX123N2020}}{{4:\n{b4}-}}"),
         _ => unreachable!(),
     }
 }
-pub const WRAPS: [&str; 8] = ["lf", "crlf", "blocks35", "block3-all", "block5-empty-values", "output-header", "output-header-no-priority", "bic11"];
+pub const WRAPS: [&str; 10] = ["lf", "crlf", "blocks35", "block3-all", "block5-empty-values", "block5-empty", "block5-unknown-tag", "output-header", "output-header-no-priority", "bic11"];
 
 pub struct Plan { pub mt: &'static str, pub msg: Msg, pub expand: bool }
 
